@@ -2,6 +2,7 @@ import SF.Lemmas.SpecFacts
 import SF.Lemmas.Real
 import SF.Lemmas.Cog
 import SF.Lemmas.Cti
+import SF.Lemmas.Net
 /-
   C06 — Trend indicators are true correlation measures of the window.
   `Spec.kendall`, `Spec.pearsonIdx`, `Spec.cog` ARE the statement's definitions (all n(n−1)/2 pairs with ties
@@ -28,6 +29,14 @@ time index 0..N−1 (0 when either variance is 0)**: the enumerate-loop's five r
 exactly the window; every N ≥ 1, every history with at least N values -/
 theorem cti_eq_pearson [FloatLike α] [ExactScalar α] [Transc α] (N : Nat) (hN : 0 < N) (xs : List α) (hx : N ≤ xs.length) :
     (ctiCore (α := α) N).outAfter xs = .ok (some (pearsonIdx (lastN N xs))) := Cti.outAfter_eq N hN xs hx
+
+/-- **NoiseEliminationTechnology equals Kendall's tau between values and time over all n(n−1)/2 pairs of the values currently
+in its window, ties contributing 0**: the 1-based double loop visits every pair exactly once; every N ≥ 1, every history -/
+theorem net_eq_kendall [FloatLike α] [ExactScalar α] (N : Nat) (hN : 0 < N) (xs : List α) :
+    (netCore (α := α) N).outAfter xs = .ok (Spec.net N xs) := Net.outAfter_eq N hN xs
+
+/-- the loop itself, for any window content: its numerator is Kendall's numerator Σ_{i<j} sgn0(w_j − w_i) -/
+theorem net_loop_eq [FloatLike α] [ExactScalar α] (q : List α) : netNum q = .ok (kendallNum q) := Net.netNum_eq q
 
 theorem sgn0_pos (d : α) (h : 0 < d) : sgn0 d = 1 := by simp [sgn0, h]
 theorem sgn0_neg' (d : α) (h : d < 0) : sgn0 d = -1 := by simp [sgn0, h, not_lt.mpr (le_of_lt h)]
